@@ -229,6 +229,11 @@ def regress_descs():
     d.update(kip=kip, K=4, in_min=lo, in_max=hi, kop=[[-3.0, 3.0, -3.0, 0.0]], dtype=dtype, pclass="large",
              inputs=[[lo - 1.0], [lo], [hi]])
     out.append(d)
+  # known finding D66: documented (1, 1, size) keypoint_output_parameters with units = 2
+  d = dict(base)
+  d.update(units=2, B=1, kip_form="3d_1_U", kip=[[[0.0], [0.0]]], kop_form="3d_1_1", kop=[[[0.5, 1.5, -1.0]]],
+           inputs=[[0.25, 0.75]], pclass="regress")
+  out.append(d)
   return out
 
 
@@ -581,10 +586,18 @@ def eval_pwl(tf, tfl, d):
       verify_raised = True
     except Exception:  # pylint: disable=broad-except
       verify_raised = None  # signature changed: this extra comparison is silent
+  # `accept`: what the CODE lets through; `accept_doc`: what the docstring documents - keypoint_output_parameters of
+  # shape (1 or batch, 1 or units, size) - the middle dimension 1 with units > 1 is documented but rejected (known
+  # finding D66, class kop_unit_broadcast_form_rejected)
   accept = (size_doc > 0 and kop_arr.shape[-1] == size_doc and kop_form_accepted(d["kop_form"], d["units"])
             and not d.get("bad"))
+  accept_doc = (size_doc > 0 and kop_arr.shape[-1] == size_doc and not d.get("bad") and
+                (d["units"] == 1 or d["kop_form"].startswith("3d")))
   if fail is None:
-    if accept and exc:
+    if accept_doc and not accept and exc:
+      fail = "documented call form rejected: keypoint_output_parameters of shape %r with units=%d (kop form %s): %s" % (
+          tuple(kop_arr.shape), d["units"], d["kop_form"], msg[-160:])
+    elif accept and exc:
       fail = "documented call form rejected (kip form %s, kop form %s, %d keypoints, size %d): %s" % (
           d["kip_form"], d["kop_form"], d["K"], size_doc, msg[-200:])
     elif not accept and not exc:
@@ -904,3 +917,12 @@ def eval_cases(ctx, descs):
     else:
       cases.append(eval_cdf_layer(tf, tfl, d))
   return cases
+
+
+def _d66(case):
+  d = case.desc
+  return (d.get("kind") == "pwl" and d.get("units", 1) > 1 and d.get("kop_form") in ("3d_1_1", "3d_B_1") and
+          (case.pred_fail or "").startswith("documented call form rejected: keypoint_output_parameters of shape"))
+
+
+KNOWN_CLASSES = {"kop_unit_broadcast_form_rejected": _d66}
